@@ -23,10 +23,10 @@ import (
 
 	"github.com/criyle/go-sandbox/container"
 	"github.com/criyle/go-sandbox/pkg/mount"
-	"github.com/criyle/go-sandbox/pkg/seccomp/libseccomp"
 	"github.com/criyle/go-sandbox/pkg/verifhook"
 	"github.com/criyle/go-sandbox/runner"
 	"github.com/criyle/go-sandbox/runner/ptrace"
+	"github.com/criyle/go-sandbox/runner/unshare"
 )
 
 func init() {
@@ -153,8 +153,8 @@ func c16One(self, probe string, c c16Case) c16Obs {
 	if c.After > 0 {
 		time.Sleep(time.Duration(c.After) * time.Millisecond)
 	}
-	progs := scanNonce(nonce + "p")
-	o.ProgBefore = len(progs)
+	progs := scanNonce(nonce)
+	o.ProgBefore = len(progs) - 1 // minus the controller itself
 	// the crash: SIGKILL of the controlling process (logged before the signal is sent)
 	t0 := time.Now()
 	cmd.Process.Kill()
@@ -168,7 +168,7 @@ func c16One(self, probe string, c c16Case) c16Obs {
 			o.InitGoneMs = time.Since(t0).Milliseconds()
 		}
 		var alive []int
-		for _, p := range scanNonce(nonce + "p") {
+		for _, p := range scanNonce(nonce) {
 			if pidAlive(p) {
 				alive = append(alive, p)
 			}
@@ -257,8 +257,8 @@ func c16Ctl(args []string) error {
 		return err
 	}
 	probe, dir, nonce := args[0], args[2], args[3]
-	if c.Kind == "ptrace" {
-		return c16Ptrace(probe, c, nonce)
+	if c.Kind == "ptrace" || c.Kind == "unshare" {
+		return c16Runner(probe, c, nonce, dir)
 	}
 	hostEv, err := os.OpenFile(filepath.Join(dir, "host.ev"), os.O_CREATE|os.O_WRONLY|os.O_APPEND, 0644)
 	if err != nil {
@@ -371,32 +371,58 @@ func c16Ctl(args []string) error {
 	return fmt.Errorf("scenario %s ended without reaching its crash point", c.Point)
 }
 
-// ptrace runner as the controller: the traced program must die with its tracer
-func c16Ptrace(probe string, c c16Case, nonce string) error {
+// ptrace / namespace runner as the controller: the program (and, at the sync point, the launcher's
+// pre-exec child) must die with it
+func c16Runner(probe string, c c16Case, nonce, dir string) error {
 	runtime.LockOSThread()
-	filter, err := (&libseccomp.Builder{Default: libseccomp.ActionAllow}).Build()
-	if err != nil {
-		return err
-	}
-	go func() {
-		// announce once the program is visible
-		for i := 0; i < 2000; i++ {
-			if len(scanNonce(nonce+"p")) > 0 {
-				break
-			}
-			time.Sleep(5 * time.Millisecond)
-		}
+	announce := func() {
 		fmt.Printf("READY 0\n")
 		os.Stdout.Sync()
-	}()
-	r := &ptrace.Runner{
-		Args:    []string{probe, nonce + "p", "ignore", "tree:" + c.Tree, "sleep:60000"},
-		Env:     []string{"PATH=/usr/bin:/bin"},
-		Files:   nullFiles(),
-		Seccomp: filter,
-		Handler: allowAll{},
-		Limit:   runner.Limit{TimeLimit: 200 * time.Second, MemoryLimit: runner.Size(2 << 30)},
 	}
-	res := r.Run(context.Background())
-	return fmt.Errorf("ptrace run ended: %v %q", res.Status, res.Error)
+	var syncFunc func(int) error
+	if c.Point == "cb" {
+		// crash point: inside the caller's sync callback (e.g. while attaching the pid to a cgroup);
+		// the child is parked before exec
+		syncFunc = func(pid int) error {
+			announce()
+			select {}
+		}
+	} else {
+		go func() {
+			// crash point: some instant while the program runs (announce once it is visible)
+			for i := 0; i < 2000; i++ {
+				if len(scanNonce(nonce+"p")) > 0 {
+					break
+				}
+				time.Sleep(5 * time.Millisecond)
+			}
+			announce()
+		}()
+	}
+	args := []string{"ignore", "tree:" + c.Tree, "sleep:60000"}
+	var res runner.Result
+	if c.Kind == "ptrace" {
+		r := &ptrace.Runner{
+			Args: append([]string{probe, nonce + "p"}, args...), Env: []string{"PATH=/usr/bin:/bin"}, Files: nullFiles(),
+			Seccomp: allowAllFilter(), Handler: allowAll{}, SyncFunc: syncFunc,
+			Limit: runner.Limit{TimeLimit: 200 * time.Second, MemoryLimit: runner.Size(2 << 30)},
+		}
+		res = r.Run(context.Background())
+	} else {
+		root, err := os.MkdirTemp(dir, "uroot")
+		if err != nil {
+			return err
+		}
+		m, err := mount.NewDefaultBuilder().WithBind(dirOf(probe), "probe", true).WithTmpfs("w", "").WithTmpfs("tmp", "").FilterNotExist().Build()
+		if err != nil {
+			return err
+		}
+		r := &unshare.Runner{
+			Args: append([]string{"/probe/cprobe", nonce + "p"}, args...), Env: []string{"PATH=/usr/bin:/bin"}, Files: nullFiles(),
+			WorkDir: "/w", Seccomp: allowAllFilter(), Root: root, Mounts: m, HostName: "verif", DomainName: "verif", SyncFunc: syncFunc,
+			Limit: runner.Limit{TimeLimit: 200 * time.Second, MemoryLimit: runner.Size(2 << 30)},
+		}
+		res = r.Run(context.Background())
+	}
+	return fmt.Errorf("run ended: %v %q", res.Status, res.Error)
 }
